@@ -44,7 +44,7 @@ package module
 //@ # kinds: 0 module path, 1 import path, 2 file path
 //@ spec func CHAROK(r int, kind int) bool = if kind == 0 then MODOK(r) else if kind == 1 then IMPOK(r) else FILEOK(r)
 //@ # every character (rune) of s from byte offset p on is allowed for the kind
-//@ spec func CHARSOK(s string, p int, kind int) bool =
+//@ spec func CHARSOK(s string, p int, kind int) bool decreases len(s) - p =
 //@     if p >= len(s) || p < 0 then true else CHAROK(runeat(s, p), kind) && CHARSOK(s, p + runesz(s, p), kind)
 //@ # "the element prefix up to the first dot"
 //@ spec func SHORTOF(e string) string = if strings.Index(e, ".") >= 0 then e[:strings.Index(e, ".")] else e
@@ -113,9 +113,9 @@ package module
 
 //@ # ---------- major-version suffixes ----------
 //@ # start of the trailing run of ASCII digits and dots of p[:n]
-//@ spec func trail(p string, n int) int = if n > 0 && n <= len(p) && (digit(p[n-1]) || p[n-1] == '.') then trail(p, n-1) else n
+//@ spec func trail(p string, n int) int decreases n = if n > 0 && n <= len(p) && (digit(p[n-1]) || p[n-1] == '.') then trail(p, n-1) else n
 //@ # start of the trailing run of ASCII digits of p[:n]
-//@ spec func dtrail(p string, n int) int = if n > 0 && n <= len(p) && digit(p[n-1]) then dtrail(p, n-1) else n
+//@ spec func dtrail(p string, n int) int decreases n = if n > 0 && n <= len(p) && digit(p[n-1]) then dtrail(p, n-1) else n
 //@ spec func nodots(p string, a int, b int) bool = forall k int :: a <= k && k < b ==> p[k] != '.'
 //@ # a final element of the form /vN where N looks numeric (digits and dots)
 //@ spec func HASVN(p string) bool = trail(p, len(p)) >= 2 && trail(p, len(p)) < len(p) && p[trail(p, len(p))-1] == 'v' && p[trail(p, len(p))-2] == '/'
